@@ -297,14 +297,11 @@ Proof.
     destruct Hin as [<-|Hin].
     + cbn. apply itoa_nonempty.
     + apply (IH (wrap_int (g + 1))). rewrite E. exact Hin.
-  - destruct (alloc_mids (bump g (t_mid x)) rest) as [g2 rest'] eqn:E. cbn [snd] in Hin.
+  - destruct (alloc_mids g rest) as [g2 rest'] eqn:E. cbn [snd] in Hin.
     destruct Hin as [<-|Hin].
     + unfold mid_unset in U. apply String.eqb_neq. exact U.
-    + apply (IH (bump g (t_mid x))). rewrite E. exact Hin.
+    + apply (IH g). rewrite E. exact Hin.
 Qed.
-
-Lemma offer_alloc_trs s : trs (offer_alloc s) = snd (alloc_mids (bump_remote (gmid s) (cur_remote s)) (trs s)).
-Proof. unfold offer_alloc. destruct (alloc_mids _ (trs s)). reflexivity. Qed.
 
 Lemma set_mids_all l : (forall t, In t l -> t_mid t <> "") -> set_mids l = map t_mid l.
 Proof.
@@ -329,7 +326,8 @@ Proof. unfold offer_alloc. destruct (alloc_mids _ (trs s)). reflexivity. Qed.
 Lemma create_offer_c06 s s' d :
   inv s -> offer_guard s -> create_offer s = (s', Ok d) -> c06_holds d.
 Proof.
-  intros [_ [Hc Hp]] (Hnum & Happ & Hdata & Hcod) H.
+  intros [Hnd0 [Hc Hp]] (Hnw & Happ & Hdata & Hcod) H.
+  pose proof (numbering_ok_lemma s Hnd0 Hnw) as Hnum.
   unfold create_offer in H. set (s1 := offer_alloc s) in *.
   destruct (offer_sections s1) as [l [[[base add] g]|e|]] eqn:E; try discriminate.
   destruct (populate (has_codecs (set_trs s1 l)) g (with_data add base)) as [p|e|] eqn:P; try discriminate.
@@ -373,7 +371,7 @@ Qed.
 
 (* C06 over every history *)
 Lemma c06_partial_lemma ops :
-  remote_ok ops -> numbering_ok_all ops ->
+  remote_ok ops -> nowrap_all ops ->
   forall s o d s', In (s, o, ODesc (Ok d), s') (trace ops) -> gen_guard s o -> c06_holds d.
 Proof.
   intros Hr Hn s o d s' Hin Hg.
@@ -397,7 +395,7 @@ Proof.
 Qed.
 
 Lemma trace_mids_distinct ops :
-  remote_ok ops -> numbering_ok_all ops ->
+  remote_ok ops -> nowrap_all ops ->
   forall s o out s', In (s, o, out, s') (trace ops) ->
   NoDup (set_mids (trs s)) /\ NoDup (set_mids (trs s')).
 Proof.
